@@ -218,16 +218,24 @@ func runEvents(c *core.Ctx, sc *scratch, i int, ok *int) {
 	must(os.MkdirAll(efi, 0o755))
 	defer os.RemoveAll(dir)
 	must(os.WriteFile(filepath.Join(efi, firmwareRIMName+"-"+googleVarGUID), append([]byte{7, 0, 0, 0}, signed...), 0o644))
+	// the boot log around the two events is long: 10-400 ordinary events before and after
+	nBefore, nAfter := 10+r.IntN(391), 10+r.IntN(391)
 	order := []int{0, 1}
 	if r.IntN(2) == 0 {
 		order = []int{1, 0}
 	}
 	var lev []logEvent
-	lev = append(lev, logEvent{0, evPostCode, []byte("POST CODE")})
+	lev = append(lev, logEvent{Type: evPostCode, Data: []byte("POST CODE")})
+	lev = append(lev, fillerEvents(r, nBefore)...)
 	for _, k := range order {
-		lev = append(lev, logEvent{0, evNoAction, evs[k]})
+		lev = append(lev, logEvent{Type: evNoAction, Data: evs[k]})
+		if r.IntN(2) == 0 {
+			lev = append(lev, fillerEvents(r, r.IntN(12))...)
+		}
 	}
+	lev = append(lev, fillerEvents(r, nAfter)...)
 	logPath := filepath.Join(dir, "binary_bios_measurements")
+	logLen := len(encodeLog(lev))
 	must(os.WriteFile(logPath, encodeLog(lev), 0o644))
 	g := &recGetter{}
 	var out []byte
@@ -243,7 +251,9 @@ func runEvents(c *core.Ctx, sc *scratch, i int, ok *int) {
 	if m, _ := decodeSP155(evs[1]); m.LocType == locURI {
 		uriIdx = 1
 	}
-	must(os.WriteFile(logPath, encodeLog([]logEvent{{0, evNoAction, evs[uriIdx]}}), 0o644))
+	lev = append(fillerEvents(r, nBefore), logEvent{Type: evNoAction, Data: evs[uriIdx]})
+	lev = append(lev, fillerEvents(r, nAfter)...)
+	must(os.WriteFile(logPath, encodeLog(lev), 0o644))
 	g = &recGetter{}
 	c.Guard(i, entryDirect, gen, core.Budget{}, func() {
 		out, err = extract.Endorsement(&extract.Options{Getter: g, FirmwareManufacturer: extract.GCEFirmwareManufacturer, EventLogLocation: logPath,
@@ -256,7 +266,8 @@ func runEvents(c *core.Ctx, sc *scratch, i int, ok *int) {
 	if *ok == 1 {
 		c.Sample(map[string]any{"family": "events", "image_sha384": lowerHex(digest[:]), "uri_locator": wantURI, "variable_locator_hex": lowerHex(wantVar), "manifest_guid_wire": lowerHex(guids[0][:]), "events_file": base + ".evts.pb"})
 	}
-	c.Cell("events|size=%#x|order=%v|svn=%d|dir=%d", size, order, svn, strings.Count(snapDir+imageName, "/"))
+	c.Max("events/longest-log-bytes", int64(logLen))
+	c.Cell("events|size=%#x|order=%v|svn=%d|dir=%d|log>=%dKiB", size, order, svn, strings.Count(snapDir+imageName, "/"), min(logLen>>12, 16)<<2)
 }
 
 func fileNames(m map[string][]byte) []string {
